@@ -77,7 +77,7 @@ Fixpoint c12_from (prev : list Z) (i : Z) (ops : list op) (tr : list obs) : opti
   | o :: ops', ob :: tr' =>
       let this := match ob with _ :: rest => take (9 + Z.to_nat (nth 8 rest 0)) rest | [] => [] end in
       match o with
-      | OUBlockMsg _ _ | OUHeaders _ =>
+      | OUBlockMsg _ _ | OUHeaders _ | OUTx _ | OUInv _ =>
           if negb (zeq this prev) && negb (i =? 0) then Some (i, [301]) else c12_from this (i + 1) ops' tr'
       | _ => c12_from this (i + 1) ops' tr'
       end
@@ -110,3 +110,13 @@ Definition chain_ok (c : list hdr) : Prop :=
   (exists c', c = genesis_hdr :: c') /\
   linked_from (-1) c = true /\
   nodup_ids c = true.
+
+(* trusted / untrusted split of a history *)
+Definition is_untrusted_op (o : op) : bool :=
+  match o with OUBlockMsg _ _ | OUHeaders _ | OUTx _ | OUInv _ => true | _ => false end.
+
+Fixpoint trusted_part {A} (ops : list op) (xs : list A) : list A :=
+  match ops, xs with
+  | o :: ops', x :: xs' => if is_untrusted_op o then trusted_part ops' xs' else x :: trusted_part ops' xs'
+  | _, _ => []
+  end.
